@@ -8,8 +8,19 @@ thread_local! {
     static NO_OPTIMIZE: Cell<bool> = const { Cell::new(false) };
 }
 
-pub(crate) fn set_no_optimize(value: bool) {
-    NO_OPTIMIZE.with(|c| c.set(value));
+pub(crate) struct NoOptimizeGuard;
+
+impl NoOptimizeGuard {
+    pub(crate) fn set(value: bool) -> Self {
+        NO_OPTIMIZE.with(|c| c.set(value));
+        NoOptimizeGuard
+    }
+}
+
+impl Drop for NoOptimizeGuard {
+    fn drop(&mut self) {
+        NO_OPTIMIZE.with(|c| c.set(false));
+    }
 }
 
 pub(crate) fn no_optimize() -> bool {
